@@ -765,7 +765,7 @@ def check_immediate_decoders(chk):
 
 # ---- R08.8 ----------------------------------------------------------------------------------------
 
-def check_section_grammar(chk, tu):
+def check_section_grammar(chk, tu, rule='R08.8', only=None):
     B = lambda v: ('byte', v)
     U = lambda v: ('u32', v)
     I = lambda v: ('i32', v)
@@ -904,6 +904,13 @@ def check_section_grammar(chk, tu):
          [{'module': 'm0', 'name': 'f', 'functionTypeIndex': 3}, {'module': 'm1', 'name': 't', 'min': 2, 'max': 9, 'shared': 0},
           {'module': 'm2', 'name': 'mem', 'min': 1, 'max': 4, 'shared': 1},
           {'module': 'm3', 'name': 'g', 'globalType.valueType': vt_enum['i64'], 'globalType.mutable': 1}]),
+        # the same host function imported twice (and a third import after them): every import entry occupies its own slot of the function
+        # index space - calls, exports, element segments and the start function address the entries by position
+        ('wasmReadImportSection', [U(3), N('env'), N('inc'), B(0), U(1), N('env'), N('inc'), B(0), U(1), N('env'), N('dbl'), B(0), U(1)], pre_counts(types=5),
+         lambda m: [m['functionImports']['length']] + [pick(x, ['module', 'name', 'functionTypeIndex']) for x in
+                                                       arr(m['functionImports']['imports'], m['functionImports']['length']) or []],
+         [3, {'module': 'env', 'name': 'inc', 'functionTypeIndex': 1}, {'module': 'env', 'name': 'inc', 'functionTypeIndex': 1},
+          {'module': 'env', 'name': 'dbl', 'functionTypeIndex': 1}]),
         ('wasmReadFunctionSection', [U(3), U(4), U(0), U(2)], pre_counts(types=5),
          lambda m: [m['functions']['count']] + [f['functionTypeIndex'] for f in arr(m['functions']['functions'], m['functions']['count']) or []],
          [3, 4, 0, 2]),
@@ -913,6 +920,13 @@ def check_section_grammar(chk, tu):
         ('wasmReadMemorySection', [U(2), B(0), U(3), B(3), U(1), U(2)], None,
          lambda m: [m['memories']['count']] + [pick(t, ['min', 'max', 'shared']) for t in arr(m['memories']['memories'], m['memories']['count']) or []],
          [2, {'min': 3, 'max': 65535, 'shared': 0}, {'min': 1, 'max': 2, 'shared': 1}]),
+        # limits whose maximum equals the minimum (a memory that can never grow), a zero-sized memory with a zero maximum, the largest limits
+        ('wasmReadMemorySection', [U(3), B(1), U(2), U(2), B(1), U(0), U(0), B(3), U(65536), U(65536)], None,
+         lambda m: [m['memories']['count']] + [pick(t, ['min', 'max', 'shared']) for t in arr(m['memories']['memories'], m['memories']['count']) or []],
+         [3, {'min': 2, 'max': 2, 'shared': 0}, {'min': 0, 'max': 0, 'shared': 0}, {'min': 65536, 'max': 65536, 'shared': 1}]),
+        ('wasmReadTableSection', [U(2), B(0x70), B(1), U(4), U(4), B(0x70), B(1), U(0), U(0)], None,
+         lambda m: [m['tables']['count']] + [pick(t, ['min', 'max', 'shared']) for t in arr(m['tables']['tables'], m['tables']['count']) or []],
+         [2, {'min': 4, 'max': 4, 'shared': 0}, {'min': 0, 'max': 0, 'shared': 0}]),
         ('wasmReadGlobalSection', [U(2), I(VT['f32']), B(0), CE, I(VT['i32']), B(1), CE], None,
          lambda m: [m['globals']['count']] + [pick(g, ['type.valueType', 'type.mutable']) for g in arr(m['globals']['globals'], m['globals']['count']) or []],
          [2, {'type.valueType': vt_enum['f32'], 'type.mutable': 0}, {'type.valueType': vt_enum['i32'], 'type.mutable': 1}]),
@@ -929,7 +943,12 @@ def check_section_grammar(chk, tu):
         ('wasmReadDataCountSection', [U(3)], None, lambda m: [m['dataSegments']['count']], [0]),
     ]
     n = 0
+    seen_fn = {}
     for fn, toks, pre, view, want in cases:
+        seen_fn[fn] = seen_fn.get(fn, 0) + 1
+        tag = fn if seen_fn[fn] == 1 else '%s#%d' % (fn, seen_fn[fn])
+        if only is not None and tag not in only:
+            continue
         chk.require(fn in tu.functions, 'section reader %s not found' % fn)
         chk.fn(fn)
         site = fn + ':grammar'
@@ -955,28 +974,36 @@ def check_section_grammar(chk, tu):
             if gotb != want or left != 0:
                 byte_bad = '%s reads the %s as %r with %r bytes left; the binary grammar gives %r' % (fn, enc_, gotb, left, want)
                 break
-        chk.expect(byte_bad is None, 'R08.8', fn + ':bytes', '%s' % byte_bad, site,
+        chk.expect(byte_bad is None, rule, tag + ':bytes', '%s' % byte_bad, site,
                    detail_ok='minimal and padded byte encodings of the section decode to the module the grammar prescribes')
         try:
             paths = run(fn, toks, pre)
         except emit.ScriptMismatch as e:
-            if byte_bad is None:
+            import re as _re
+            mm = _re.search(r'asked for (\w+) but the (?:next immediate of the instruction is|buffer holds) (\w+)', str(e))
+            leb = ('u32', 'i32', 'u64', 'i64')
+            if mm and mm.group(1) in leb and mm.group(2) in leb:
+                # signed vs unsigned / 32 vs 64 bits: some valid encodings decode to another value (e.g. a count of 64..127 read as signed
+                # is negative)
+                chk.fail(rule, tag + ':decoders', '%s: %s - the two LEB128 kinds decode some valid encodings to different values '
+                         '(token script of the section grammar: %r)' % (fn, e, toks), site)
+            elif byte_bad is None:
                 chk.undecide('%s: %s - outside the token model of the decoders; the byte-level evaluation of the section agrees with the grammar' % (fn, e))
             continue
         except pe.PEError as e:
             raise AnalysisBroken('R08.8 %s: %s' % (fn, e))
         ok_paths = [p for p in paths if p.state['err']['v'] == 0]
-        if not chk.expect(len(ok_paths) == 1, 'R08.8', fn + ':accepts',
+        if not chk.expect(len(ok_paths) == 1, rule, tag + ':accepts',
                           '%s does not accept a valid section (%d paths, %d successful): %r' % (fn, len(paths), len(ok_paths), toks), site):
             continue
         p = ok_paths[0]
-        chk.expect(p.state['stream'].pos == len(toks), 'R08.8', fn + ':consumes-all',
+        chk.expect(p.state['stream'].pos == len(toks), rule, tag + ':consumes-all',
                    '%s consumed %d of %d tokens of the section: %r' % (fn, p.state['stream'].pos, len(toks), p.state['stream'].log), site)
         try:
             got = view(p.state['mod'])
         except Exception as e:         # the record no longer has the expected shape
             got = 'unreadable (%s)' % e
-        chk.expect(got == want, 'R08.8', fn + ':decoded-module',
+        chk.expect(got == want, rule, tag + ':decoded-module',
                    '%s builds %r from the section %r; the binary grammar gives %r' % (fn, got, toks, want), site)
     return n
 
